@@ -6,7 +6,7 @@ use kira::backend::{Backend, Renderer};
 use kira::{AudioManager, AudioManagerSettings, Capacities};
 use std::alloc::{GlobalAlloc, Layout, System};
 use std::cell::{Cell, RefCell};
-use std::sync::atomic::{AtomicU64, Ordering};
+use std::sync::atomic::AtomicU64;
 
 // ---------------------------------------------------------------------------------------------
 // allocation monitor
